@@ -97,6 +97,30 @@ def t_split_is_exact():
     assert full.stats.paths == 32 == tot, (full.stats.paths, tot)
 
 
+def t_mod_and_allocators():
+    from symx.npx import NPProxy
+
+    def fn(ctx):
+        npp = NPProxy([])
+        x = ctx.real("x")
+        ctx.assume((x >= -3) & (x < 5))
+        r = x % 2
+        ctx.claim("0<=r<2", (r >= 0) & (r < 2))
+        q, r2 = divmod(x, 2)
+        ctx.claim("divmod", (q * 2 + r2 == x) & (r2 == r))
+        out = npp.empty(3)
+        out[1] = x
+        ctx.claim("empty-stores-symbolic", (out[1] == x) & (out.dtype == object))
+        z = npp.zeros(2, dtype=float)
+        z[0] = x + 1
+        ctx.claim("zeros(float)-stores-symbolic", z[0] - 1 == x)
+        bins = symarray([ctx.const(0), ctx.const(1), ctx.const(2)])
+        d = npp.digitize(symarray([x]), bins)
+        ctx.claim("digitize", ((x < 0) & (d[0] == 0)) | ((x >= 0) & (x < 1) & (d[0] == 1)) | ((x >= 1) & (x < 2) & (d[0] == 2)) | ((x >= 2) & (d[0] == 3)))
+    ex = run(fn)
+    assert ex.stats.sat == 0 and ex.stats.inconclusive == 0 and ex.stats.paths >= 4, ex.stats.as_dict()
+
+
 if __name__ == "__main__":
     tests = [v for k, v in sorted(globals().items()) if k.startswith("t_")]
     for t in tests:
